@@ -73,6 +73,7 @@ struct Ev {
 	uint8_t a = 0, b = 0, c = 0, d = 0;
 	// control view (EV_CB)
 	uint8_t sid = NOID, ctxOk = 1, evtOk = 1, thisOk = 1;
+	uint8_t cprevOk = 1;               // control.previousTransitions() shows what machine.previousTransition() shows
 	uint8_t tmplOk = 1, ctmplOk = 1;   // templated forms (isActive<T>(), stateId<T>()) agree with the id forms: machine / control
 	uint8_t live = 0;   // the machine view below was taken from a constructed, not abandoned instance
 	uint64_t cAct = 0;
